@@ -1,4 +1,5 @@
 import ArcaModel.Lemmas.Step
+import ArcaModel.Props.C01
 /-
   C11  Step calls: the handler runs iff the input is valid; outputs are checked; bad IDs are errors.
 
@@ -79,6 +80,16 @@ theorem C11_handler_iff_unser_partial (v : V)
     exact ⟨st, hl, hu⟩
   · rintro ⟨st, hl, hu⟩
     exact ⟨st, hl, hu, hC01 st hl v hu⟩
+
+/-- C11 in its own wording, with the round-trip hypothesis discharged by C01: for every plugin whose
+    step input schemas are what the Go constructors accept (`WF1`, decidable by `wf1B`), the handler
+    runs exactly once, on `v`, iff the step exists and `Unserialize` of the raw input yields `v`. -/
+theorem C11_handler_iff_unser (v : V)
+    (hwf : ∀ st, lookupS stepID p = some st → WF1 [] st.input) :
+    (callStep x fuel p beh stepID raw).2 = [v] ↔
+      ∃ st, lookupS stepID p = some st ∧ run x fuel .U [] st.input raw = .ok v :=
+  C11_handler_iff_unser_partial x fuel p beh stepID raw v (fun st hl v' hu =>
+    ⟨unitV, (C01_roundtrip_closed_partial x fuel st.input raw v' (hwf st hl) hu).1⟩)
 
 /-! ### the result -/
 
@@ -430,6 +441,14 @@ example : PluginWF helloPlugin := by
     subst hs
     exact wfB_sound 10 [] _ (by decide)
 
+-- the hypothesis of `C11_handler_iff_unser` holds for the example plugin
+example : ∀ st, lookupS "hello" helloPlugin = some st → WF1 [] st.input := by
+  intro st h
+  simp only [helloPlugin, lookupS] at h
+  simp at h
+  subst h
+  exact wf1B_sound 10 [] _ (by decide)
+
 -- every path is inhabited: success, each error kind, handler panic
 example : callStep noExt 20 helloPlugin greet "hello" (rawName "Arca") =
     (.ok "success" (rawName "hi"), [rawName "Arca"]) := by rfl
@@ -476,6 +495,7 @@ end Arca.Step
 #print axioms Arca.Step.C11_handler_else
 #print axioms Arca.Step.C11_handler_at_most_once
 #print axioms Arca.Step.C11_handler_iff_unser_partial
+#print axioms Arca.Step.C11_handler_iff_unser
 #print axioms Arca.Step.C11_result
 #print axioms Arca.Step.C11_result_unknownStep
 #print axioms Arca.Step.C11_result_invalidInput
